@@ -298,8 +298,10 @@ class Run:
             stalls += 1 if stalled else 0
             outs.append("timeout" if stalled else f"abort\t{p.returncode}")
             pos += 1
-            if rounds > 200:
-                raise Broken(f"{tag}: interpreter keeps dying")
+            if rounds > 60:
+                # the interpreter keeps dying (each death is recorded above as 'abort'): stop spending time
+                outs += ["not-run"] * (n - pos)
+                pos = n
         return outs
 
     def model_dump(self, mode, timeout=3600):
